@@ -18,7 +18,7 @@ from vf.ref import linq
 
 BACKENDS = ("atlas", "cms_aod")
 RULE = (
-    "cells = every function name of the README's Math list (+ builtin abs, pow) x 7 uses (standalone column, inside +*/ arithmetic, inside an inner lambda under Sum, as the argument of other functions, with a literal in each argument position, "
+    "cells = every function name of the README's Math list (+ builtin abs, pow) x 9 uses (standalone column, on float-typed arguments standalone and inside arithmetic, inside +*/ arithmetic, inside an inner lambda under Sum, as the argument of other functions, with a literal in each argument position, "
     "inside a comparison + conditional, on integer-typed arguments standalone and inside arithmetic) + each name alone in a query of its own (include check), enumerated completely in every run on two back ends; arguments are computed from Hypothesis-drawn "
     "event data inside each function's domain. non-trivial = a (cell, drawn values) pair with a row on which the namesake differs from every "
     "other listed function of the same arity (so a table row mapped to a sibling is visible); distinct by (cell, values)."
@@ -88,6 +88,16 @@ def build_cells(backend):
                 la = list(base_args)
                 la[pos] = lit
                 cells.append((f"{name}:lit{pos}", f"{name}({', '.join(la)})", name))
+        if name not in ("nan", "nextafter", "nexttoward"):  # (the neighbour of a number is by definition a matter of the argument's precision)
+            # float-typed arguments (a method declared `float`, the elements of a vector<float>): the column is a double and holds the
+            # namesake of the argument's value - not the single-precision overload's rounding of it
+            if backend == "atlas":
+                fargs = ", ".join(a.replace("j.NINT()", int_method(backend)).replace(X, "j.emf()") for a in SPEC[name])
+                cells.append((f"{name}:float", f"{name}({fargs})", name))
+                cells.append((f"{name}:floatarith", f"(({name}({fargs}) * 2 + 1) / 4)", name))
+            else:
+                fargs = ", ".join(a.replace("j.NINT()", int_method(backend)).replace(X, "w") for a in SPEC[name])
+                cells.append((f"{name}:float", f"j.chi2s().Select(lambda w: {name}({fargs}))", name))
         if name in INTSPEC:
             icall = f"{name}({', '.join(a.replace('j.NINT()', int_method(backend)) for a in INTSPEC[name])})"
             cells.append((f"{name}:int", icall, name))
@@ -107,7 +117,14 @@ def make_query(cells, backend):
     return f"Select(SelectMany({dataset_text(sch)}, lambda e: e.{acc}({bank!r})), lambda j: {body})"
 
 
-def close(a, b):
+# a float-typed argument selects the single-precision overload in C++ (std::sin(float) is sinf): the value is the namesake's to single
+# precision (stated tolerance: 1e-6 relative, ~8 ulp of a float); double / int arguments are compared at 1e-12
+FLOAT_TOL = 1e-6
+
+
+def close(a, b, tol=1e-12):
+    if isinstance(a, (list, tuple)) or isinstance(b, (list, tuple)):
+        return isinstance(a, (list, tuple)) and isinstance(b, (list, tuple)) and len(a) == len(b) and all(close(x, y, tol) for x, y in zip(a, b))
     try:
         a, b = float(a), float(b)
     except (TypeError, ValueError):
@@ -118,7 +135,7 @@ def close(a, b):
         return True
     if math.isinf(a) or math.isinf(b):
         return False
-    return abs(a - b) <= 1e-12 * max(abs(a), abs(b)) or abs(a - b) < 1e-300
+    return abs(a - b) <= tol * max(abs(a), abs(b)) or abs(a - b) < 1e-300
 
 
 def siblings_differ(name, cell_text, evs, backend, refvals):
@@ -182,7 +199,7 @@ def run_cells(cells, evs, backend):
                 continue
             for a, b in zip(exp_rows, obs_rows):
                 vals.append(a[i])
-                if not close(a[i], b[i]) and prob is None:
+                if not close(a[i], b[i], FLOAT_TOL if ":float" in c[0] else 1e-12) and prob is None:
                     prob = f"{c[1]}: the C library's {c[2]} gives {a[i]!r}, the job gives {b[i]!r}"
         res.append((c, prob, vals))
     return res
